@@ -53,26 +53,26 @@ theorem wf_of_check (ts : List Transition) (h : wellFormed ts = true) : WF ts :=
 /-! ### the value of a transition at an outer configuration -/
 
 /-- coherent contribution of transition `t` (all its symmetrised graphs) to configuration `h`. -/
-def gval (ι : Interp R) (v : Variant) (cfg : Config) (m : Mapping) (h : List Int) (t : Transition) : R :=
-  denTerms ι ((t.symmetrise.filter fun g => g.outer = h).map (Transition.term v cfg m))
+def gval (ι : Interp R) (v : Variant) (cfg : Config) (m : Mapping) (sel : List DecayKey) (h : List Int) (t : Transition) : R :=
+  denTerms ι ((t.symmetrise.filter fun g => g.outer = h).map (Transition.term v cfg m sel))
 
-theorem denTerms_graphs_filter (ι : Interp R) (v : Variant) (cfg : Config) (m : Mapping) (h : List Int)
+theorem denTerms_graphs_filter (ι : Interp R) (v : Variant) (cfg : Config) (m : Mapping) (sel : List DecayKey) (h : List Int)
     (c : List Transition) :
-    denTerms ι (((graphsOf c).filter fun g => g.outer = h).map (Transition.term v cfg m))
-      = (c.map (gval ι v cfg m h)).sum := by
+    denTerms ι (((graphsOf c).filter fun g => g.outer = h).map (Transition.term v cfg m sel))
+      = (c.map (gval ι v cfg m sel h)).sum := by
   unfold graphsOf gval denTerms
   rw [List.filter_flatMap, List.map_flatMap, sum_flatMap]
 
 /-- reading the `byProjection` entries at `h` gives exactly the graphs with outer projections `h`. -/
-theorem sum_byProjection (ι : Interp R) (v : Variant) (cfg : Config) (m : Mapping) (h : List Int)
+theorem sum_byProjection (ι : Interp R) (v : Variant) (cfg : Config) (m : Mapping) (sel : List DecayKey) (h : List Int)
     (gs : List Transition) :
-    ((byProjection v cfg m gs).map fun e => if e.1 = h then denTerms ι e.2 else 0).sum
-      = denTerms ι ((gs.filter fun g => g.outer = h).map (Transition.term v cfg m)) := by
+    ((byProjection v cfg m sel gs).map fun e => if e.1 = h then denTerms ι e.2 else 0).sum
+      = denTerms ι ((gs.filter fun g => g.outer = h).map (Transition.term v cfg m sel)) := by
   unfold byProjection
   simp only [List.map_map, Function.comp_def]
   by_cases hm : h ∈ dedupFirst (gs.map Transition.outer)
   · have := sum_ite_eq_of_mem (dedupFirst (gs.map Transition.outer)) (nodup_dedupFirst _) h
-      (denTerms ι ((gs.filter fun g => g.outer = h).map (Transition.term v cfg m))) hm
+      (denTerms ι ((gs.filter fun g => g.outer = h).map (Transition.term v cfg m sel))) hm
     rw [← this]
     congr 1
     apply List.map_congr_left
@@ -168,8 +168,8 @@ theorem head_filter {α κ : Type} [DecidableEq κ] [Inhabited α] (key : α →
     have := List.mem_filter.mp ha
     exact ⟨this.1, by simpa using this.2⟩
 
-theorem mem_cellWrites (v : Variant) (cfg : Config) (m : Mapping) (c : List Transition) (w : AmpDef)
-    (hw : w ∈ cellWrites v true cfg m c) :
+theorem mem_cellWrites (v : Variant) (cfg : Config) (m : Mapping) (sel : List DecayKey) (c : List Transition) (w : AmpDef)
+    (hw : w ∈ cellWrites v true cfg m sel c) :
     w.base = (c.headD default).baseName ∧ ∃ t ∈ c, ∃ g ∈ t.symmetrise, w.idx = g.outer := by
   unfold cellWrites byProjection at hw
   simp only [if_true, List.map_map, List.mem_map, Function.comp] at hw
@@ -181,8 +181,8 @@ theorem mem_cellWrites (v : Variant) (cfg : Config) (m : Mapping) (c : List Tran
   obtain ⟨t, ht, hgt⟩ := List.mem_flatMap.mp hg
   exact ⟨t, ht, g, hgt, rfl⟩
 
-theorem cellWrites_syms_nodup (v : Variant) (cfg : Config) (m : Mapping) (c : List Transition) :
-    ((cellWrites v true cfg m c).map symOf).Nodup := by
+theorem cellWrites_syms_nodup (v : Variant) (cfg : Config) (m : Mapping) (sel : List DecayKey) (c : List Transition) :
+    ((cellWrites v true cfg m sel c).map symOf).Nodup := by
   unfold cellWrites byProjection
   simp only [if_true, List.map_map]
   apply (nodup_dedupFirst _).map
@@ -190,8 +190,8 @@ theorem cellWrites_syms_nodup (v : Variant) (cfg : Config) (m : Mapping) (c : Li
   simpa [Function.comp, symOf] using e
 
 /-- all writes of the repaired builder. -/
-def writesOf (v : Variant) (cfg : Config) (m : Mapping) (ts : List Transition) : List AmpDef :=
-  (cellsOf ts).flatMap fun g => g.flatMap (cellWrites v true cfg m)
+def writesOf (v : Variant) (cfg : Config) (m : Mapping) (sel : List DecayKey) (ts : List Transition) : List AmpDef :=
+  (cellsOf ts).flatMap fun g => g.flatMap (cellWrites v true cfg m sel)
 
 def basesOf (ts : List Transition) : List String :=
   (groupByFirst Transition.topo ts).map fun c => (c.headD default).baseName
@@ -233,17 +233,17 @@ theorem base_mem_basesOf (ts : List Transition) (wf : WF ts) (t : Transition) (h
   refine List.mem_map.mpr ⟨t.topo, (mem_dedupFirst _ _).mpr hτ, ?_⟩
   exact (wf.base _ h1.1 _ ht).mpr h1.2
 
-theorem writes_base_mem (v : Variant) (cfg : Config) (m : Mapping) (ts : List Transition) (wf : WF ts)
-    (w : AmpDef) (hw : w ∈ writesOf v cfg m ts) : w.base ∈ basesOf ts := by
+theorem writes_base_mem (v : Variant) (cfg : Config) (m : Mapping) (sel : List DecayKey) (ts : List Transition) (wf : WF ts)
+    (w : AmpDef) (hw : w ∈ writesOf v cfg m sel ts) : w.base ∈ basesOf ts := by
   unfold writesOf at hw
   obtain ⟨g, hg, hw⟩ := List.mem_flatMap.mp hw
   obtain ⟨c, hc, hw⟩ := List.mem_flatMap.mp hw
   have cf := cell_facts ts g hg c hc
-  rw [(mem_cellWrites v cfg m c w hw).1]
+  rw [(mem_cellWrites v cfg m sel c w hw).1]
   exact base_mem_basesOf ts wf _ (cf.1 _ cf.2.1)
 
-theorem writes_syms_nodup (v : Variant) (cfg : Config) (m : Mapping) (ts : List Transition) (wf : WF ts) :
-    ((writesOf v cfg m ts).map symOf).Nodup := by
+theorem writes_syms_nodup (v : Variant) (cfg : Config) (m : Mapping) (sel : List DecayKey) (ts : List Transition) (wf : WF ts) :
+    ((writesOf v cfg m sel ts).map symOf).Nodup := by
   unfold writesOf
   rw [List.map_flatMap, List.nodup_flatMap]
   constructor
@@ -252,7 +252,7 @@ theorem writes_syms_nodup (v : Variant) (cfg : Config) (m : Mapping) (ts : List 
     rw [List.map_flatMap, List.nodup_flatMap]
     constructor
     · intro c _
-      exact cellWrites_syms_nodup v cfg m c
+      exact cellWrites_syms_nodup v cfg m sel c
     · obtain ⟨G, hG, rfl⟩ : ∃ G, G ∈ groupByFirst Transition.spinKey ts ∧ g = groupByFirst Transition.topo G := by
         unfold cellsOf at hg
         obtain ⟨G, hG, rfl⟩ := List.mem_map.mp hg
@@ -267,8 +267,8 @@ theorem writes_syms_nodup (v : Variant) (cfg : Config) (m : Mapping) (ts : List 
       intro s hs hs'
       obtain ⟨w, hw, rfl⟩ := List.mem_map.mp hs
       obtain ⟨w', hw', e⟩ := List.mem_map.mp hs'
-      have b1 := (mem_cellWrites v cfg m _ w hw).1
-      have b2 := (mem_cellWrites v cfg m _ w' hw').1
+      have b1 := (mem_cellWrites v cfg m sel _ w hw).1
+      have b2 := (mem_cellWrites v cfg m sel _ w' hw').1
       have : w'.base = w.base := congrArg Prod.fst e
       rw [b1, b2] at this
       have := (wf.base _ (pG.2.1 _ h2.1) _ (pG.2.1 _ h1.1)).mp this
@@ -287,8 +287,8 @@ theorem writes_syms_nodup (v : Variant) (cfg : Config) (m : Mapping) (ts : List 
     obtain ⟨c', hc', hwc'⟩ := List.mem_flatMap.mp hw'
     obtain ⟨τ, _, rfl⟩ := List.mem_map.mp hc
     obtain ⟨τ', _, rfl⟩ := List.mem_map.mp hc'
-    obtain ⟨_, t, ht, gr, hgr, hi⟩ := mem_cellWrites v cfg m _ w hwc
-    obtain ⟨_, t', ht', gr', hgr', hi'⟩ := mem_cellWrites v cfg m _ w' hwc'
+    obtain ⟨_, t, ht, gr, hgr, hi⟩ := mem_cellWrites v cfg m sel _ w hwc
+    obtain ⟨_, t', ht', gr', hgr', hi'⟩ := mem_cellWrites v cfg m sel _ w' hwc'
     have m1 := List.mem_filter.mp (List.mem_filter.mp ht).1
     have m2 := List.mem_filter.mp (List.mem_filter.mp ht').1
     have k1 : t.spinKey = k := by simpa using m1.2
@@ -299,18 +299,18 @@ theorem writes_syms_nodup (v : Variant) (cfg : Config) (m : Mapping) (ts : List 
 
 /-! ### adding the writes up -/
 
-theorem sum_cellWrites (ι : Interp R) (v : Variant) (cfg : Config) (m : Mapping) (h : List Int)
+theorem sum_cellWrites (ι : Interp R) (v : Variant) (cfg : Config) (m : Mapping) (sel : List DecayKey) (h : List Int)
     (c : List Transition) :
-    ((cellWrites v true cfg m c).map fun w => if w.idx = h then denTerms ι w.terms else 0).sum
-      = (c.map (gval ι v cfg m h)).sum := by
+    ((cellWrites v true cfg m sel c).map fun w => if w.idx = h then denTerms ι w.terms else 0).sum
+      = (c.map (gval ι v cfg m sel h)).sum := by
   unfold cellWrites
   simp only [if_true, List.map_map, Function.comp_def]
   rw [← denTerms_graphs_filter, ← sum_byProjection]
 
-theorem sum_writes (ι : Interp R) (v : Variant) (cfg : Config) (m : Mapping) (h : List Int)
+theorem sum_writes (ι : Interp R) (v : Variant) (cfg : Config) (m : Mapping) (sel : List DecayKey) (h : List Int)
     (ts : List Transition) :
-    ((writesOf v cfg m ts).map fun w => if w.idx = h then denTerms ι w.terms else 0).sum
-      = (ts.map (gval ι v cfg m h)).sum := by
+    ((writesOf v cfg m sel ts).map fun w => if w.idx = h then denTerms ι w.terms else 0).sum
+      = (ts.map (gval ι v cfg m sel h)).sum := by
   unfold writesOf
   rw [sum_flatMap]
   simp only [sum_flatMap, sum_cellWrites]
@@ -324,7 +324,7 @@ theorem spec_graphs_at (ι : Interp R) (v : Variant) (cfg : Config) (m : Mapping
     (ts : List Transition) (wf : WF ts) :
     denTerms ι (((ts.flatMap fun t => t.symmetrise.map fun g => (g.outer, g.specTerm v cfg m)).filter
         fun g => g.1 = h).map (·.2))
-      = (ts.map (gval ι v cfg m h)).sum := by
+      = (ts.map (gval ι v cfg m (selectorKeys ts) h)).sum := by
   unfold denTerms
   rw [List.filter_flatMap, List.map_flatMap, sum_flatMap]
   congr 1
@@ -337,7 +337,8 @@ theorem spec_graphs_at (ι : Interp R) (v : Variant) (cfg : Config) (m : Mapping
   intro g hg
   have hg' : g ∈ t.symmetrise := (List.mem_filter.mp hg).1
   simp only [Function.comp]
-  rw [term_eq_specTerm v cfg m g (wf.isobar t ht g hg')]
+  rw [term_eq_specTerm v cfg m (selectorKeys ts) g (wf.isobar t ht g hg')
+    (fun n hn => mem_selectorKeys ts t ht g hg' n hn)]
 
 /-! ### the main statement -/
 
@@ -353,10 +354,10 @@ theorem impl_eq_spec (ι : Interp R) (v : Variant) (cfg : Config) (ts : List Tra
   intro h _
   congr 1
   have hw : (impl v true cfg ts).writes
-      = writesOf v cfg (registerAll cfg.flags (ts.map Transition.chain)) ts := rfl
+      = writesOf v cfg (registerAll cfg.flags (ts.map Transition.chain)) (selectorKeys ts) ts := rfl
   have hb : (impl v true cfg ts).bases = basesOf ts := rfl
-  rw [hw, hb, sum_bases ι _ _ h (writes_syms_nodup v cfg _ ts wf) (basesOf_nodup ts wf)
-    (writes_base_mem v cfg _ ts wf), sum_writes]
+  rw [hw, hb, sum_bases ι _ _ h (writes_syms_nodup v cfg _ _ ts wf) (basesOf_nodup ts wf)
+    (writes_base_mem v cfg _ _ ts wf), sum_writes]
   exact (spec_graphs_at ι v cfg _ h ts wf).symm
 
 end Ampverif.Lemmas.C02Regroup
